@@ -6,3 +6,7 @@ pub assume_specification<T, U, F: FnOnce(T) -> U>[ Option::<T>::map_or ](opt: Op
     ensures
         opt is None ==> r == default,
         opt matches Some(x) ==> f.ensures((x,), r);
+
+// ASSUMED (std docs): Option::or returns self if it is Some, otherwise the argument.
+pub assume_specification<T>[ Option::<T>::or ](a: Option<T>, b: Option<T>) -> (r: Option<T>)
+    ensures r == (if a is Some { a } else { b });
